@@ -499,7 +499,8 @@ def rule_accum(P, files=EARLEYS):
             if not (isinstance(n, ast.Assign) and len(n.targets) == 1 and isinstance(n.targets[0], ast.Subscript)):
                 continue
             tgt = n.targets[0]
-            if not (isinstance(tgt.value, ast.Attribute) and tgt.value.attr in ("c_chart", "i_chart")):
+            ctv = W.cnorm(f.node, tgt.value, n)
+            if not (ctv.endswith(".c_chart") or ctv.endswith(".i_chart")):
                 continue
             n_sites += 1
             facts = W.guard_facts(n)
@@ -519,7 +520,7 @@ def rule_accum(P, files=EARLEYS):
             rd = W.reaching_def(f.node, wname, n)
             wdef = rd[1] if rd is not None else None
             same_cell = (wdef is not None and isinstance(wdef, ast.Call) and W.call_name(wdef) == "get"
-                         and norm(W.receiver(wdef)) == norm(tgt.value) and norm(wdef.args[0]) == norm(tgt.slice)
+                         and W.cnorm(f.node, W.receiver(wdef), n) == ctv and norm(wdef.args[0]) == norm(tgt.slice)
                          and len(wdef.args) == 1)
             if first:
                 ok = W.is_name(n.value, vparam) and same_cell
